@@ -595,6 +595,59 @@ def j_cost(kind, pre, ln):
     return None
 
 
+def j_crash_atomic(kind, pre, post, op, args, disordered=False):
+    """C03 / C11 / C12 for a SINGLE-ELEMENT call interrupted by a caught user panic: whatever happens to the order (C10 leaves it
+    unspecified), the CONTENTS afterwards are those before the call or those the completed call prescribes — a single-element
+    operation has no third state (the map is written at one point; the panicking code is a comparison, or a setter / predicate
+    that panics on entry).  In particular push_increase / push_decrease never leave a priority that moved the wrong way."""
+    if pre is None or post is None:
+        return None
+    c0 = pre.contents()
+    c1 = post.contents()
+    if c1 == c0:
+        return None
+    a = args
+    done = dict(c0)
+    try:
+        if op in ("push", "push_increase", "push_decrease"):
+            k, pl, p = int(a[0]), int(a[1]), int(a[2])
+            if k not in done:
+                done[k] = (pl, p)
+            else:
+                old = done[k][1]
+                if op == "push" or (op == "push_increase" and rk(p) > rk(old)) or (op == "push_decrease" and rk(p) < rk(old)):
+                    done[k] = (done[k][0], p)
+        elif op == "change_priority":
+            k, p = int(a[0]), int(a[1])
+            if k in done:
+                done[k] = (done[k][0], p)
+        elif op == "change_priority_by":
+            k, p = int(a[0]), int(a[1])
+            if k in done:
+                done[k] = (done[k][0], p)
+        elif op == "remove":
+            done.pop(int(a[0]), None)
+        elif op in ("pop", "pop_min", "pop_max"):
+            # the completed call removes AN extreme element (which one among ties is not prescribed)
+            if len(c1) == len(c0) - 1 and all(k in c0 and c0[k] == v for k, v in c1.items()):
+                gone = [k for k in c0 if k not in c1][0]
+                ranks = [rk(v[1]) for v in c0.values()]
+                want = min(ranks) if op == "pop_min" else max(ranks)
+                # (on a queue whose order was already unspecified — an earlier caught panic, a leaked guard — a pop removes
+                # whatever sits at the root)
+                if disordered or rk(c0[gone][1]) == want:
+                    return None
+            return "%s interrupted by a caught panic left contents that are neither those before the call nor those after removing an extreme element" % op
+        else:
+            return None
+    except Exception:
+        return None
+    if c1 == done:
+        return None
+    diff = {k: (c0.get(k), c1.get(k)) for k in set(c0) | set(c1) if c0.get(k) != c1.get(k)}
+    return "%s interrupted by a caught panic left contents that are neither those before the call nor those of the completed call (item: (before, after)): %s" % (op, str(diff)[:300])
+
+
 def j_cost_crashed(kind, pre, post, op, args):
     """C05 for a call interrupted by a caught user panic (`!cmp<k>` / `!cb<k>`): an interrupted call has performed a prefix of
     the comparisons of the completed call, and nothing compares while unwinding, so the bound of the completed call applies.
@@ -858,6 +911,7 @@ def judge_case(prop, kind, lines):
                 try:
                     kk, _, core = text.partition(" | ")[2].strip().partition(" ")
                     kpre, ppre = k, pre
+                    was_unordered = order_unspecified
                     pre = parse_snap(core)
                     k = kk
                 except Exception as ex:
@@ -865,6 +919,10 @@ def judge_case(prop, kind, lines):
                 order_unspecified = True
                 if prop == "C05":
                     msg = j_cost_crashed(kpre, ppre, pre, ln.args[0], ln.args[1:])
+                    if msg:
+                        return (idx, msg)
+                if prop in ("C03", "C11", "C12") and not ln.op.startswith("!cl"):
+                    msg = j_crash_atomic(kpre, ppre, pre, ln.args[0], ln.args[1:], was_unordered)
                     if msg:
                         return (idx, msg)
                 if prop in ("C01", "C02"):
